@@ -2,6 +2,7 @@
 package c07
 
 import (
+	"time"
 	"context"
 	"errors"
 	"fmt"
@@ -32,6 +33,10 @@ func gen(t *rapid.T) *Case {
 	c.Target = rapid.SampledFrom([]string{"device", "cache", "cache", "cache", "schema"}).Draw(t, "target")
 	c.Kind = rapid.SampledFrom([]string{"error", "error", "error", "restart"}).Draw(t, "kind")
 	c.Point = rapid.IntRange(0, 63).Draw(t, "point")
+	if rapid.IntRange(0, 59).Draw(t, "slow") == 0 {
+		// not a failure at all: one cache call answers late (longer than every timeout data-server puts on it)
+		c.Target, c.Kind = "cache", "slow"
+	}
 	if os.Getenv("VERIF_TIER") == "thorough" && rapid.IntRange(0, 3).Draw(t, "enumerate") == 0 {
 		c.Point = -1
 	}
@@ -40,7 +45,7 @@ func gen(t *rapid.T) *Case {
 
 var prop = vlib.Prop[*Case]{
 	ID: "C07",
-	Rule: "case = confirmed prefix history (0..4 transactions as in C01) + transaction T + one fault: a fault-free twin datastore B runs prefix and T with counting decorators and yields the exact list of collaborator calls T makes (target.Set; every cache Read / ReadCh / GetKeys / Modify; every schema GetSchema); datastore A runs the same prefix, then T with exactly one of those calls failing (error, empty read result, or a restart: the call panics, the datastore is abandoned, the cache is closed and reopened over the same directory and a new datastore is built); the fault point is drawn in the quick tier and enumerated over the whole call list for a quarter of the cases in the thorough tier; " +
+	Rule: "case = confirmed prefix history (0..4 transactions as in C01) + transaction T + one fault: a fault-free twin datastore B runs prefix and T with counting decorators and yields the exact list of collaborator calls T makes (target.Set; every cache Read / ReadCh / GetKeys / Modify; every schema GetSchema); datastore A runs the same prefix, then T with exactly one of those calls failing (error, empty read result, a cache call that answers 2.3 s late without failing, or a restart: the call panics, the datastore is abandoned, the cache is closed and reopened over the same directory and a new datastore is built); the fault point is drawn in the quick tier and enumerated over the whole call list for a quarter of the cases in the thorough tier; " +
 		"oracle = device fault: TransactionSet returns an error, INTENDED and CONFIG dumps equal the pre-T dumps and the transaction slot is free; every fault: repeating T once the fault is gone succeeds and leaves device and intended store of A equal to those of B; " +
 		"non-trivial = T has a non-empty diff in the fault-free run and the fault actually fired; distinct = distinct (case, fault point)",
 	Gen:  gen,
@@ -215,6 +220,10 @@ func oneFault(ctx context.Context, c *Case, k int, cacheCalls []vlib.CacheCall, 
 	kind := "error"
 	if c.Kind == "restart" {
 		kind = "panic"
+	}
+	if c.Kind == "slow" {
+		kind = "slow"
+		a.cdeco.SlowDelay = 2300 * time.Millisecond
 	}
 	switch c.Target {
 	case "device":
